@@ -71,11 +71,11 @@ Proof.
 Qed.
 
 (* Tr::max_weight_to_satisfy takes the maximum over the satisfiable leaves *)
-Lemma tr_tree_weight_ge (leaves : list (N * N * option (N * N))) d ssz el sz :
+Lemma tr_leaves_weight_ge (leaves : list (N * N * option (N * N))) d ssz el sz :
   In (d, ssz, Some (el, sz)) leaves ->
-  exists w, tr_tree_weight leaves = Some w /\ tr_leaf_weight d ssz el sz <= w.
+  exists w, tr_leaves_weight leaves = Some w /\ tr_leaf_weight d ssz el sz <= w.
 Proof.
-  unfold tr_tree_weight.
+  unfold tr_leaves_weight.
   assert (G : forall ls acc,
              (In (d, ssz, Some (el, sz)) ls \/ exists a, acc = Some a /\ tr_leaf_weight d ssz el sz <= a) ->
              exists w, fold_left (fun (acc : option N) (l : N * N * option (N * N)) =>
@@ -92,6 +92,19 @@ Proof.
       + left. exact Hin.
       + right. destruct o0 as [[el0 sz0]|]; [|eauto]. eexists; split; [reflexivity|]. lia. }
   intros Hin. apply G. left. exact Hin.
+Qed.
+Lemma tr_tree_weight_ge (leaves : list (N * N * option (N * N))) d ssz el sz :
+  In (d, ssz, Some (el, sz)) leaves ->
+  exists w, tr_tree_weight leaves = Some w /\ tr_leaf_weight d ssz el sz <= w.
+Proof.
+  intros Hin. destruct (tr_leaves_weight_ge leaves d ssz el sz Hin) as (w & E & Hw).
+  unfold tr_tree_weight. rewrite E. eexists. split; [reflexivity|]. lia.
+Qed.
+(* since /repo 265ff19b: the key-path spend (one 65-byte signature item) is covered as well *)
+Lemma tr_tree_weight_keyspend (leaves : list (N * N * option (N * N))) :
+  exists w, tr_tree_weight leaves = Some w /\ tr_keyspend_weight <= w.
+Proof.
+  unfold tr_tree_weight. destruct (tr_leaves_weight leaves); eexists; (split; [reflexivity|]); lia.
 Qed.
 
 (* ---- single-miniscript descriptors: the figure covers every satisfaction of the satisfier model *)
